@@ -54,7 +54,7 @@ SplitVerdicts(r) ==
                                \/ \E j \in 1..NDom(P) : j # d /\ r.parts[i].doms[j] # P.doms[j]
            THEN {"C12:part-differs-elsewhere"} ELSE {})
      \cup (IF n >= 1 /\ ~IsPartition(rs, lo, hi) THEN {"C12:ranges-not-a-partition"} ELSE {})
-     \cup (IF n >= 1 /\ IsPartition(rs, lo, hi) /\ r.k <= KMax /\ rs # Ranges(lo, hi, r.k) THEN {"C12:ranges-differ-from-spec"} ELSE {})
+     \cup (IF n >= 1 /\ IsPartition(rs, lo, hi) /\ r.k <= KMax /\ rs # Ranges(lo, hi, r.k) THEN {"DRIFT:ranges-differ-from-the-arithmetic-of-the-specification"} ELSE {})
      \cup (IF \E i \in 1..n : r.status[i] # "ok" THEN {"C12:part-not-solvable"} ELSE {})
      \cup (IF \A i \in 1..n : r.status[i] = "ok" THEN
              (IF \E x \in DOMAIN BagOfSeq(all) : BagOfSeq(all)[x] > 1 THEN {"C12:parts-share-a-solution"} ELSE {})
